@@ -15,6 +15,9 @@ CHECKS = {
  "C16": ("Bounded exhaustive derivations of the model grammar: every leaf form, every operator x leaf form x operand slot, all grammar-conforming expression trees with up to 2 (quick) / 3 (thorough) operators, expressions in every context, all parent/slot/child statement combinations to nesting depth 2/3, all type terms to depth 2/3 in six positions, every declaration kind x flags x list shapes and pairs of declarations; each module in the canonical layout, two global layouts and every single-gap deviation (6 fillers); plus limit pumps and all 357 corpus files. Each text is parsed by both real parsers; the second generation's XML dump is checked for well-formedness, read back and compared with the model's own syntax tree, and the first generation's AST is compared with the same tree.",
          "Trusted: the model grammar and renderer (model/grammar.rs, spaces/ast.rs). Abstractions stated in DESIGN.md 3.4. Not covered: derivations beyond the operator/nesting bounds.",
          "exhaustive enumeration of grammar derivations up to a size bound, conformance of both implementations' trees against the generating model tree", "5 (C16), appendix B"),
+ "C17": ("Bounded exhaustive exploration: every sequence of up to 4 (quick) / 5 (thorough) declarations over 9 declaration kinds (constant, function with empty / 3-statement / 200-statement body, function head, struct, word, opaque struct, import) x {private, pub, pub extern} - that is every pattern of private zones up to that length. For each module the real build_header() output is printed and compared line by line with the XML of the real parser run on the model's projection (pub declarations in order, pub cleared, bodies dropped), read back and compared with the projection's model tree, and the declaration count is checked.",
+         "Trusted: grammar::project_header as the definition of the public interface; the XML printer (itself checked by C16). Not covered: modules with more declarations than the bound.",
+         "explicit-state enumeration of all declaration sequences up to a length bound with a differential oracle (header vs. projection)", "5 (C17)"),
 }
 
 NOT_YET = {}
